@@ -69,7 +69,20 @@ int main(int argc, char** argv)
         auto* c = find_check(o.property);
         if (!c) { fprintf(stderr, "unknown property %s\n", o.property.c_str()); return 2; }
         g_tier = o.quick() ? "quick" : "thorough";
-        int r = c->run(o);
+        int r;
+        try
+        {
+            r = c->run(o);
+        }
+        catch (const std::exception& e)
+        {
+            // Nothing in a check's own (parent-side) code throws on a tree where the property holds; an exception that arrives
+            // here comes out of a library call the check relies on (creating a library, listing schemas, ...). Reported as a
+            // violation of the property under check, with a replay file that says so.
+            Reporter rep(o.property, build_variant());
+            rep.add(Violation{"unexpected_exception|parent", std::string("a library call the check relies on threw in the coordinating process: ") + e.what(), "", Json(std::string(e.what()))});
+            r = rep.finish();
+        }
         if (r < 0) return 3;
         return r > 0 ? 1 : 0;
     }
